@@ -16,8 +16,13 @@ def sh(*a, **k):
 
 def reset():
     sh('git', '-C', wt, 'checkout', '--', '.')
+    if mode == 'file' and os.path.exists(target):
+        os.remove(target)
 
 def add_demo():
+    if mode == 'file':
+        open(target, 'w').write(demo)
+        return
     s = open(target).read()
     if mode == 'append':
         s = s + '\n' + demo + '\n'
@@ -28,7 +33,8 @@ def add_demo():
 
 def run():
     feat = ['--features', os.environ['SEED_FEATURES']] if os.environ.get('SEED_FEATURES') else []
-    p = sh('cargo', 'test', '--offline', '-p', os.environ.get('SEED_PKG', 'elvis-core'), '--lib', *feat, filt, cwd=os.path.join(wt, 'sim'), env=env)
+    sel = ['--test', os.path.splitext(os.path.basename(rel))[0]] if mode == 'file' else ['--lib']
+    p = sh('cargo', 'test', '--offline', '-p', os.environ.get('SEED_PKG', 'elvis-core'), *sel, *feat, filt, cwd=os.path.join(wt, 'sim'), env=env)
     out = p.stdout + p.stderr
     import re
     m = re.search(r'test result: (\w+)\. (\d+) passed; (\d+) failed', out)
